@@ -142,3 +142,44 @@ func C01_fragments() {
 	want := sh.exec(q, ops[run], 0)
 	sym.Assert(sym.DeepEqual(res["data"], interface{}(want)), "data is exactly the selection")
 }
+
+// C01_merge: one response key selected more than once at several levels at
+// the same time - directly, through inline fragments and through named
+// fragments: the sub-selections are merged at every depth, not only the first
+// (the bounded grammar of C01_select cannot afford two levels of repetition).
+func C01_merge() {
+	sh := &shape{frags: map[string]*sel{}}
+	leafA, leafS := sfld("a"), sfld("s")
+	switch sym.Choice("shape", 7) {
+	case 0:
+		sh.sels = []*sel{sfld("o", sfld("o", leafA)), sfld("o", sfld("o", leafS))}
+	case 1:
+		sh.frags["F"] = &sel{kind: selInline, cond: "Query", sub: []*sel{sfld("o", sfld("o", leafS), sfld("a"))}}
+		sh.order = []string{"F"}
+		sh.sels = []*sel{sfld("o", sfld("o", leafA)), {kind: selSpread, frag: "F"}}
+	case 2:
+		sh.sels = []*sel{sfld("l", sfld("o", leafA)), sfld("l", sfld("o", leafS))}
+	case 3:
+		sh.sels = []*sel{sfld("o", sfld("l", leafA)), on("Query", sfld("o", sfld("l", leafS)))}
+	case 4:
+		sh.sels = []*sel{sfld("o", sfld("o", sfld("o", leafA))), sfld("o", sfld("o", sfld("o", leafS), sfld("s")))}
+	case 5:
+		sh.sels = []*sel{sfld("o", sfld("o", leafA), sfld("o", leafS)), sfld("o", sfld("o", sfld("l", sfld("a"))))}
+	default:
+		sh.frags["G"] = &sel{kind: selInline, cond: "Obj", sub: []*sel{sfld("o", leafS)}}
+		sh.order = []string{"G"}
+		sh.sels = []*sel{sfld("l", sfld("o", leafA), &sel{kind: selSpread, frag: "G"}), sfld("l", on("Obj", sfld("o", sfld("o", sfld("a")))))}
+	}
+	var log []string
+	q := newGraph(&log, 2)
+	root := kitRoot(q)
+	doc := sh.render()
+	sym.Observe("doc", doc)
+	sym.Budget(3_000_000)
+	res := root.ResolveString(doc, "", nil)
+	sym.Observe("res", res)
+	_, hasErr := res["errors"]
+	sym.Assert(!hasErr, "valid request has no errors")
+	want := sh.exec(q, sh.sels, 0)
+	sym.Assert(sym.DeepEqual(res["data"], interface{}(want)), "data is exactly the selection")
+}
